@@ -28,9 +28,10 @@ Step(e) ==
     [] e.act = "RenderPatch" -> RenderPatch
     [] e.act = "Export"      -> Export(e.d, e.force)
     [] e.act = "New"         -> NewCmd
+    [] e.act = "InitRender"  -> InitRender(e.d, e.force)
 
 Post(e) ==
-  /\ Chk("RenderSucceeds", e.act \in {"Render", "RenderPatch"} => e.rc = 0)     \* (a project the tools wrote themselves renders)
+  /\ Chk("RenderSucceeds", (e.act \in {"Render", "RenderPatch"} \/ (e.act = "InitRender" /\ cfg = 0)) => e.rc = 0)     \* (a project the tools wrote themselves renders)
   /\ Chk("NewRefusesAProjectDirectory", e.act = "New" => ((e.rc = 0) = (cfg = 0 /\ tree = 0 /\ patch = 0)))
   /\ Chk("ConfigurationOnDisk", cfg' = e.cfg_id)
   /\ Chk("SourcesOnDisk", tree' \in ToSetOf(e.tree_ids))
